@@ -8,7 +8,7 @@ use trion::text::token::Number;
 
 use super::*;
 
-const ADDRS: [u32; 6] = [0x2000_0000, 0x2000_0002, 4, 2, 0xFFFF_FFF0, 0xFFFF_FFF2];
+const ADDRS: [u32; 8] = [0x2000_0000, 0x2000_0002, 4, 2, 0xFFFF_FFF0, 0xFFFF_FFF2, 0xFFFF_FFFC, 0xFFFF_FFFE];
 
 /// architectural target of a PC-relative instruction at `addr` (unbounded arithmetic), if it has one
 fn target(i: &Instruction, addr: u32) -> Option<i64>
@@ -93,6 +93,17 @@ fn run_batch(cx: &mut Cx, cases: &[Case], dirs: &DirectiveList)
 		if texts.len() == 2 && texts[1] != texts[0]
 		{
 			cx.report.disagree("model.show.render", input.clone(), format!("render(parts) = {}", texts[1]), format!("text = {}", texts[0]));
+		}
+		// the instruction itself must fit below 2^32 (a 32-bit instruction cannot sit at 0xFFFFFFFE)
+		if let Ok(enc) = encode(&c.instr)
+		{
+			if c.addr as u64 + enc.len() as u64 > 1u64 << 32
+			{
+				cx.report.case(None);
+				cx.report.hit("skipped: the instruction does not fit below 2^32 at this address");
+				reals.push(None);
+				continue;
+			}
 		}
 		// target inside the address space?
 		let tgt = target(&c.instr, c.addr);
@@ -199,7 +210,7 @@ fn push_cases(out: &mut Vec<Case>, instr: Instruction, rng: &mut Rng, n: &mut u6
 	}
 	else
 	{
-		out.push(Case{instr, addr: ADDRS[(*n % 6) as usize], after: false, staged: rng.chance(1, 16)});
+		out.push(Case{instr, addr: ADDRS[(*n % 8) as usize], after: false, staged: rng.chance(1, 16)});
 	}
 }
 
@@ -317,7 +328,7 @@ pub fn run(cx: &mut Cx)
 	let dirs = dirs();
 	cx.report.rule = "every decodable 16-bit pattern (all 65536 halfwords decoded) and a stratified sample of decodable 32-bit patterns \
 (BL over sign/J1/J2 strata with boundary and random immediates, MSR/MRS/barriers/UDF.W with bit flips, uniform wide prefixes) x addresses \
-{0x20000000, 0x20000002, 4, 2, 0xFFFFFFF0, 0xFFFFFFF2} (all six for PC-relative 16-bit instructions, rotating otherwise): \
+{0x20000000, 0x20000002, 4, 2, 0xFFFFFFF0, 0xFFFFFFF2, 0xFFFFFFFC, 0xFFFFFFFE} (all eight for PC-relative 16-bit instructions, rotating otherwise): \
 text = format!(\"{}\", instr.at(addr)); every l_XXXXXXXX it mentions is defined by `.const` before the statement (1/4: after = deferred); \
 `.addr A; <text>` is assembled with the real Context; oracle: no diagnostic and the output is exactly instr.encode() at A, and the label \
 names the architectural target; targets outside the address space are skipped and counted. Model: Show.text byte for byte, \
